@@ -1,6 +1,6 @@
 (* PV.C01.Examples — non-vacuity: concrete non-trivial inputs meeting the hypotheses of the theorems. *)
 From Coq Require Import QArith List Bool PArith Arith Lia.
-From PV Require Import Base.PyData Base.Expr Base.Interp Base.Stmts C01.Model C01.Check C01.Refuted C01.ProofsParams C01.Parser.
+From PV Require Import Base.PyData Base.Expr Base.Interp Base.Stmts C01.Model C01.Check C01.Refuted C01.ProofsParams C01.Parser C01.Des.
 Import ListNotations.
 
 (* A = THETA(1)
@@ -150,3 +150,26 @@ Example cholesky_example :
   omega_block_parse sqrt_exact 3 false false false [1%Q; 2%Q; 3%Q] = OSyntaxError /\
   omega_block_parse sqrt_exact 2 false false false [1%Q; 2%Q] = OInternalError.
 Proof. repeat split; vm_compute; reflexivity. Qed.
+
+(* des_sound: depot -> central <-> peripheral with elimination (amounts 1, 2, 3; rate constants 11..14)
+   DADT(1) = -KA*A1;  DADT(2) = KA*A1 - K20*A2 - K23*A2 + K32*A3;  DADT(3) = K23*A2 - K32*A3 *)
+Definition ex_des : list deq :=
+  [(1%positive, [mkDT false 11%positive 1%positive]);
+   (2%positive, [mkDT true 11%positive 1%positive; mkDT false 12%positive 2%positive; mkDT false 13%positive 2%positive;
+                 mkDT true 14%positive 3%positive]);
+   (3%positive, [mkDT true 13%positive 2%positive; mkDT false 14%positive 3%positive])].
+Example des_nonvacuous :
+  des_guard ex_des = true /\
+  des_flows ex_des = [(1, 2, 11); (3, 2, 14); (2, 3, 13)]%positive /\
+  des_outs ex_des = [(2, 12)]%positive /\
+  terms_of_expr [1; 2; 3]%positive true
+    (Add (Add (Mul (Sym 11%positive) (Sym 1%positive)) (Neg (Mul (Sym 12%positive) (Sym 2%positive))))
+         (Mul (Sym 3%positive) (Sym 14%positive))) =
+    Some [mkDT true 11%positive 1%positive; mkDT false 12%positive 2%positive; mkDT true 14%positive 3%positive].
+Proof. repeat split; vm_compute; reflexivity. Qed.
+(* the guard is needed: with the same rate constant on two flows leaving one compartment the attribution
+   of loss terms to flows is no longer determined *)
+Example des_guard_rejects :
+  des_guard [(1%positive, [mkDT false 11%positive 1%positive; mkDT false 11%positive 1%positive]);
+             (2%positive, [mkDT true 11%positive 1%positive])] = false.
+Proof. vm_compute. reflexivity. Qed.
